@@ -261,12 +261,14 @@ def run_script(sim, tt, plan, fmt):
     return done
 
 
-def tree_view(tree, listing, with_ids):
+def tree_view(tree, listing, with_ids, versioned_dirs=True):
     """{path: [kind, content, versioned, file_id, executable]} of `tree` (a preview tree or
     a working tree) for the given [(path, kind)] listing; read through the Tree API."""
     out = {}
     for path, kind in listing:
         versioned = bool(tree.is_versioned(path))
+        if kind == "directory" and not versioned_dirs:
+            versioned = None  # git: directories are not versioned objects
         fid = None
         if versioned and with_ids:
             f = tree.path2id(path)
@@ -307,6 +309,16 @@ def versioned_set(tree, with_ids):
     return sorted(out)
 
 
+def resolver_in(tb):
+    name = "resolve_conflicts"
+    while tb is not None:
+        n = tb.tb_frame.f_code.co_name
+        if n.startswith("resolve_") and n != "resolve_conflicts":
+            name = n
+        tb = tb.tb_next
+    return name
+
+
 class Hang(Exception):
     pass
 
@@ -327,6 +339,7 @@ def execute(sim, plan):
     s0 = xformsim.tree_state(root)
     osseam.activate(sim, {"": root})
     tree = xformsim.open_tree(root)
+    vdirs = tree.has_versioned_directories()
     seen = []
 
     def pass_func(tt, conflicts):
@@ -340,6 +353,7 @@ def execute(sim, plan):
     old = signal.signal(signal.SIGALRM, _on_alarm)
     tt = tree.transform()
     malformed = None
+    crashed = None
     try:
         done = run_script(sim, tt, plan, fmt)
         signal.alarm(HANG_S)
@@ -348,11 +362,15 @@ def execute(sim, plan):
             _t.resolve_conflicts(tt, pass_func=pass_func)
         except _t.MalformedTransform as e:
             malformed = e
-        if malformed is None:
+        except Hang:
+            raise
+        except Exception as e:  # noqa: BLE001 - neither resolved nor reported as malformed
+            crashed = (e, resolver_in(e.__traceback__))
+        if malformed is None and crashed is None:
             stage = "preview"
             pt = tt.get_preview_tree()
             pre_list = preview_listing(pt)
-            pre = tree_view(pt, pre_list, with_ids)
+            pre = tree_view(pt, pre_list, with_ids, vdirs)
             pre_versioned = versioned_set(pt, with_ids)
             stage = "apply"
             try:
@@ -371,6 +389,17 @@ def execute(sim, plan):
             osseam.deactivate(sim)
     sim.nontrivial = done >= 3 and len(seen) >= 1
     sim.state_seen((tuple(sorted(set(seen))), malformed is not None))
+    if crashed is not None:
+        e, where = crashed
+        sim.probe("resolver_crash")
+        sim.event("outcome", "crashed", where, type(e).__name__)
+        s = xformsim.tree_state(root)
+        touched = "" if s == s0 else " AND the tree changed"
+        sim.fail(
+            "resolve_outcome",
+            ["resolve_outcome", "none", f"{where}:{type(e).__name__}" + (":tree-changed" if touched else "")],
+            f"resolve_conflicts neither produced a conflict-free transform nor reported MalformedTransform: {where} raised {type(e).__name__}: {e}{touched} [conflicts met: {sorted(set(seen))}]",
+        )
     if malformed is not None:
         sim.probe("malformed")
         sim.event("outcome", "malformed", sorted({c[0] for c in malformed.conflicts}))
@@ -386,7 +415,7 @@ def execute(sim, plan):
     wt = xformsim.open_tree(root)
     with wt.lock_read():
         post_list = disk_listing(root)
-        post = tree_view(wt, post_list, with_ids)
+        post = tree_view(wt, post_list, with_ids, vdirs)
         post_versioned = versioned_set(wt, with_ids)
     if pre != post:
         diffs = []
